@@ -22,6 +22,7 @@ import (
 	"os"
 	"reflect"
 	"runtime"
+	"strings"
 
 	vegeta "github.com/tsenart/vegeta/v12/lib"
 	"verifharness/internal/ev"
@@ -291,6 +292,16 @@ func runC07(c *Ctx) int {
 					run.Distinct(codecKey(&r))
 					cc["records_nontrivial"]++
 				}
+			}
+			if s%4000 == 17 && n >= 2 {
+				// one record in a few thousand streams carries more than a megabyte of headers (hundreds of
+				// large cookies); it is not the last record, so an early end of the stream shows
+				h := http.Header{}
+				for k := 0; k < 300; k++ {
+					h.Add("Set-Cookie", fmt.Sprintf("c%d=%s", k, strings.Repeat("v", 4000)))
+				}
+				recs[0].Headers = h
+				cc["records_with_more_than_1MiB_of_headers"]++
 			}
 			cc["records_generated"] += int64(n)
 			cc["streams"]++
